@@ -650,7 +650,13 @@ def sig_requeue_after_close(case, params):
     return v.get("kind") == "close_waiter_survives" and bool(v.get("queued_after_close"))
 
 
+def sig_lost_wakeup_total_only(case, params):
+    v = case.get("violation", {})
+    return v.get("kind") == "lost_wakeup" and int(case.get("cfg", {}).get("lph", 0)) == 0
+
+
 SIGNATURES = {
+    "lost_wakeup_total_limit_only": sig_lost_wakeup_total_only,     # only referenced by a fixed: entry
     "overlimit_step_is_first_get_reuse": sig_overlimit_first_get_reuse,
     "per_host_wasted_wakeup": sig_per_host_wasted_wakeup,
     "waiter_requeued_after_close": sig_requeue_after_close,
